@@ -141,6 +141,12 @@ static void run_case(const vh::Case &cs, Worker &w) {
             if (c.on_thread) settled = w.recheck();
             if (settled && c.res_ready) c.outstanding = false;
         }
+        if (c.outstanding) {
+            // the blocked consumer can never be released: finish the case output and ask for a fresh process
+            std::printf("END\n");
+            std::fflush(stdout);
+            std::_Exit(42);
+        }
     }
 }
 
